@@ -228,6 +228,159 @@ where
     Ok(())
 }
 
+// ------------------------------------------------------------------------------------------
+// multivariate sparse polynomials
+// ------------------------------------------------------------------------------------------
+
+use ark_poly::multivariate::{SparsePolynomial as MvPoly, SparseTerm, Term};
+use ark_poly::DenseMVPolynomial;
+use std::collections::BTreeMap;
+
+type RawTerm = Vec<(usize, usize)>;
+/// mathematical identity of a multivariate polynomial: monomial (sorted (variable, power>0) list) -> non-zero coefficient
+type MvKey<Fe> = Vec<(RawTerm, Fe)>;
+
+fn mono(t: &RawTerm) -> RawTerm {
+    let mut m: BTreeMap<usize, usize> = BTreeMap::new();
+    for (v, p) in t {
+        if *p > 0 {
+            *m.entry(*v).or_insert(0) += *p;
+        }
+    }
+    m.into_iter().collect()
+}
+
+fn mv_key<Fe: ark_ff::Field>(terms: &[(Fe, RawTerm)]) -> MvKey<Fe> {
+    let mut m: BTreeMap<RawTerm, Fe> = BTreeMap::new();
+    for (c, t) in terms {
+        *m.entry(mono(t)).or_insert(Fe::ZERO) += *c;
+    }
+    m.into_iter().filter(|(_, c)| !c.is_zero()).collect()
+}
+
+fn mv_add<Fe: ark_ff::Field>(a: &MvKey<Fe>, k: Fe, b: &MvKey<Fe>) -> MvKey<Fe> {
+    let mut all: Vec<(Fe, RawTerm)> = a.iter().map(|(t, c)| (*c, t.clone())).collect();
+    all.extend(b.iter().map(|(t, c)| (*c * k, t.clone())));
+    mv_key(&all)
+}
+
+fn mv_terms<T: MontConfig<N>, const N: usize>(c: &FieldCtx, t: &mut Tape<'_>, nv: usize) -> Vec<(F<T, N>, RawTerm)> {
+    let n = t.idx(6);
+    (0..n)
+        .map(|_| {
+            let coeff = match t.weighted(&[1, 2, 2, 4]) {
+                0 => F::<T, N>::zero(),
+                1 => F::<T, N>::one(),
+                2 => -F::<T, N>::one(),
+                _ => edge_fp::<T, N>(t, c).0,
+            };
+            let len = t.idx(4);
+            // powers 0 and repeated variables are legal input of `SparseTerm::new` (dropped / combined)
+            let term: RawTerm = (0..len).map(|_| (t.idx(nv), t.idx(4))).collect();
+            (coeff, term)
+        })
+        .collect()
+}
+
+fn mv_build<Fe: ark_ff::Field>(nv: usize, terms: &[(Fe, RawTerm)]) -> MvPoly<Fe, SparseTerm> {
+    MvPoly::from_coefficients_vec(nv, terms.iter().map(|(c, t)| (*c, SparseTerm::new(t.clone()))).collect())
+}
+
+fn mvpoly_rel<T: MontConfig<N>, const N: usize>(c: &FieldCtx, t: &mut Tape<'_>, o: &mut Obs) -> R {
+    type P<T, const N: usize> = MvPoly<F<T, N>, SparseTerm>;
+    let nva = 1 + t.idx(4);
+    let ta = mv_terms::<T, N>(c, t, nva);
+    let rel = t.weighted(&[4, 2, 2, 2, 2]);
+    let (nvb, tb): (usize, Vec<(F<T, N>, RawTerm)>) = match rel {
+        0 => {
+            let nvb = 1 + t.idx(4);
+            (nvb, mv_terms::<T, N>(c, t, nvb))
+        },
+        // the same polynomial declared over more variables
+        1 => (nva + 1 + t.idx(2), ta.clone()),
+        // the same polynomial with its term list reversed and one coefficient split into two entries
+        2 => {
+            let mut v = ta.clone();
+            v.reverse();
+            if let Some((c0, t0)) = v.first().cloned() {
+                v[0].0 = c0 - F::<T, N>::one();
+                v.push((F::<T, N>::one(), t0));
+            }
+            (nva, v)
+        },
+        // exactly one coefficient differs
+        3 => {
+            let mut v = ta.clone();
+            if v.is_empty() {
+                v.push((F::<T, N>::one(), vec![]));
+            } else {
+                let i = t.idx(v.len());
+                v[i].0 += F::<T, N>::one();
+            }
+            (nva, v)
+        },
+        // -a plus a constant: everything but the constant term cancels in a+b
+        _ => {
+            let mut v: Vec<(F<T, N>, RawTerm)> = ta.iter().map(|(c, t)| (-*c, t.clone())).collect();
+            v.push((F::<T, N>::one(), vec![]));
+            (nva, v)
+        },
+    };
+    let nvc = 1 + t.idx(4);
+    let tc = mv_terms::<T, N>(c, t, nvc);
+    let k = match t.weighted(&[1, 1, 3]) {
+        0 => F::<T, N>::zero(),
+        1 => F::<T, N>::one(),
+        _ => edge_fp::<T, N>(t, c).0,
+    };
+    let (ka, kb, kc) = (mv_key(&ta), mv_key(&tb), mv_key(&tc));
+    o.show(|| format!("{}: a=({} vars) {:?} b=({} vars) {:?} c=({} vars) {:?} k={:?}", c.name, nva, ta, nvb, tb, nvc, tc, k));
+    o.class(["independent", "same polynomial over more variables", "same polynomial, terms reordered and split", "one coefficient differs", "b = 1 - a"][rel]);
+    o.class_if(ka == kb, "a and b denote the same polynomial");
+    o.class_if(ka == kb && nva != nvb, "same polynomial, different num_vars");
+    o.class_if(ka.is_empty() || kb.is_empty(), "zero polynomial operand");
+    o.nt(rel != 0 || ka == kb);
+    let a = mv_build(nva, &ta);
+    let b = mv_build(nvb, &tb);
+    let cc = mv_build(nvc, &tc);
+    let one = F::<T, N>::one();
+    let s_ab = mv_add(&ka, one, &kb);
+    let s_abc = mv_add(&s_ab, one, &kc);
+    let mut v: Vec<(&'static str, P<T, N>, MvKey<F<T, N>>)> = vec![("a", a.clone(), ka.clone()), ("b", b.clone(), kb.clone()), ("c", cc.clone(), kc.clone())];
+    v.push(("a+b", &a + &b, s_ab.clone()));
+    v.push(("b+a", &b + &a, s_ab.clone()));
+    v.push(("a+b (by value)", a.clone() + b.clone(), s_ab.clone()));
+    let mut x = a.clone();
+    x += &b;
+    v.push(("a+=b", x, s_ab.clone()));
+    let mut x = b.clone();
+    x += (one, &a);
+    v.push(("b+=(1,a)", x, s_ab.clone()));
+    let mut x = a.clone();
+    x += (k, &b);
+    v.push(("a+=(k,b)", x, mv_add(&ka, k, &kb)));
+    v.push(("(a+b)+c", &(&a + &b) + &cc, s_abc.clone()));
+    v.push(("a+(b+c)", &a + &(&b + &cc), s_abc.clone()));
+    v.push(("(a+b)-b", &(&a + &b) - &b, ka.clone()));
+    let mut x = &a + &b;
+    x -= &b;
+    v.push(("(a+b)-=b", x, ka.clone()));
+    v.push(("a-a", &a - &a, vec![]));
+    v.push(("a-b", &a - &b, mv_add(&ka, -one, &kb)));
+    v.push(("-(b-a)", -(&b - &a), mv_add(&ka, -one, &kb)));
+    v.push(("-(-a)", -(-a.clone()), ka.clone()));
+    v.push(("zero", P::<T, N>::zero(), vec![]));
+    v.push(("default", P::<T, N>::default(), vec![]));
+    v.push(("a+0", &a + &P::<T, N>::zero(), ka.clone()));
+    o.evals((v.len() * v.len()) as u64);
+    check_eq_hash(&v)?;
+    for (l, x, key) in &v {
+        ensure_eq!(x.is_zero(), key.is_empty(), "mv.is_zero", "[{}] {:?}", l, x);
+        ensure_eq!(*x == P::<T, N>::zero(), key.is_empty(), "mv.eq_zero", "[{}] {:?}", l, x);
+    }
+    Ok(())
+}
+
 pub fn relations(out: &mut Vec<Rel>, tier: Tier) {
     macro_rules! poly {
         ($cfg:ty, $n:expr, $name:expr, $q:expr) => {{
@@ -240,4 +393,12 @@ pub fn relations(out: &mut Vec<Rel>, tier: Tier) {
     poly!(ark_test_curves::bls12_381::FrConfig, 4, "test.bls12_381.Fr", 1500);
     poly!(vh_core::zoo::T97Cfg, 1, "T97", 2500);
     poly!(vh_core::zoo::T65537Cfg, 1, "T65537", 2500);
+    macro_rules! mv {
+        ($cfg:ty, $n:expr, $name:expr, $q:expr) => {{
+            let c = Arc::new(ctx_of::<$cfg, $n>($name));
+            out.push(Rel::new(format!("mvpoly/{}", $name), tier.pick($q, $q * 20), 30 * ($n + 12) + 32, move |t, o| mvpoly_rel::<$cfg, $n>(&c, t, o)));
+        }};
+    }
+    mv!(ark_bls12_381::FrConfig, 4, "bls12_381.Fr", 2000);
+    mv!(vh_core::zoo::T97Cfg, 1, "T97", 2500);
 }
